@@ -22,6 +22,8 @@ JSXFREE = {
     'ts-scoped': 'function outer() {{ interface L extends Base {{ a: string }} interface L {{ b: number }} type T = L | null; interface Base {{ z: boolean }} return null as unknown as T }} interface Base {{ top: number }}',
     'ts-blocks-after-jsx': 'const App = () => <div class="app">hello</div>; declare global {{ namespace JSX {{ interface IntrinsicElements {{ "my-el": {{ label?: string }} }} }} }} namespace Registry {{ export const entries: string[] = []; export const el = <b/>; }} declare module "m" {{ export const v: number }} export default App;',
     'ts-blocks-with-slot': 'namespace Before {{ export const x = 1 }} const v = <Foo>{{f1()}}</Foo>; namespace After {{ export const y = () => <Foo>{{f1()}}</Foo>; export namespace Inner {{ export const z = 2 }} }} function f1() {{ return 0 }}',
+    'use-client': '"use client";\nimport x from "./x";\nexport const a = <Foo>{{f1()}}</Foo>; function f1() {{ return 0 }}',
+    'use-strict-fn': 'function g() {{ "use strict"; "second directive"; return <Foo>{{f1()}}</Foo>; }} const h = () => {{ "use strict"; return <Foo>{{f1()}}</Foo>; }}; class K {{ m() {{ "use strict"; v = <Foo>{{v}}</Foo>; }} }} function f1() {{ return 0 }} let v;',
     'comments': '/* @jsx h */\n// @jsx other\nconst a = 1; /** @jsxFrag F */ const b = 2;',
     'define-like': 'function defineComponent(o) {{ return o }} const C = defineComponent({{ name: "x" }});',
     'vue-import-no-call': 'import {{ defineComponent, ref }} from "vue"; const r = ref(1);',
@@ -39,6 +41,7 @@ DEFINE = {
     'dynamic-default': 'import {{ defineComponent }} from "vue"; const defs: any = {{}}; interface P {{ a?: string }} export const A = defineComponent((props: P = defs) => () => null);',
     'props-given-dynamic-default': 'import {{ defineComponent }} from "vue"; const defs: any = {{}}; export const A = defineComponent((props: {{ a?: string }} = defs) => () => null, {{ props: {{ a: String }} }});',
     'props-given-static-default': 'import {{ defineComponent, type SetupContext }} from "vue"; export const A = defineComponent((props: {{ a?: string }} = {{ a: "x" }}, ctx: SetupContext<(e: "x") => void>) => () => null, {{ props: {{ a: String }}, emits: ["x"] }});',
+    'dynamic-default-spread-arg': 'import {{ defineComponent }} from "vue"; const defs: any = {{}}; const rest: any[] = []; export const A = defineComponent((props: {{ a?: number }} = defs) => () => null, ...rest);',
     'with-jsx': 'import {{ defineComponent }} from "vue"; const C = defineComponent((props: {{ a: string }}) => () => <div>{{props.a}}</div>); const tail = () => <C a="x"/>;',
 }
 
@@ -91,6 +94,16 @@ def generated_item(ctx, item):
             return is_dummy(deref(d.fields[0].get('function')).get('span'))
         if d.variant == 'Var':
             return is_dummy(deref(d.fields[0]).get('span'))
+    return False
+
+
+def _is_directive(item):
+    x = deref(item)
+    if isinstance(x, Adt) and x.ty == 'ModuleItem':
+        x = deref(x.fields[0])
+    if isinstance(x, Adt) and x.ty == 'Stmt' and x.variant == 'Expr':
+        e = denote.E(x.fields[0].get('expr'))
+        return denote.is_expr(e, 'Lit') and e.fields[0].variant == 'Str'
     return False
 
 
@@ -161,8 +174,13 @@ class Frame:
                     if isinstance(x0, Adt) and x0.ty == 'Stmt' and x0.variant == 'Decl' and x0.fields[0].variant == 'Var':
                         return True
                     return False
-                if all(allowed(x) for x in bb[:k]):
-                    bb = bb[k:]
+                # ... and always behind the directive prologue ("use strict", "use client"): in front of it they would turn the
+                # directives into ordinary statements
+                d = 0
+                while d < len(a) and _is_directive(a[d]):
+                    d += 1
+                if all(allowed(x) for x in bb[d:d + k]):
+                    bb = bb[:d] + bb[d + k:]
             if len(a) != len(bb):
                 return self.fail(path, 'list of %d became %d' % (len(a), len(b)))
             ok = True
